@@ -308,6 +308,23 @@ TRANSPARENT = {
 }
 
 
+_PARAM_TABLE = None
+
+
+def _param_table():
+    global _PARAM_TABLE
+    if _PARAM_TABLE is None:
+        p = os.path.join(os.path.dirname(os.path.dirname(os.path.abspath(__file__))), "param_table.json")
+        try:
+            with open(p) as f:
+                _PARAM_TABLE = json.load(f)
+        except OSError:
+            _PARAM_TABLE = {}
+        if os.environ.get("SWIMVERIFY_NO_PARAM_TABLE") == "1":
+            _PARAM_TABLE = {}
+    return _PARAM_TABLE
+
+
 class Body:
     def __init__(self, crate, meta, raw):
         self.crate = crate
@@ -319,10 +336,16 @@ class Body:
         self.n = len(self.blocks)
         self.argc = raw["argc"]
         self.locals = raw["locals"]
-        self.vars = raw["vars"]
+        self.vars = self._canonical_params(raw)
+        # locals the source binds with `let` / a pattern / a parameter (as opposed to compiler temporaries); kept when the names are withheld
+        self.user_locals = {p[0] for n, p in raw["vars"] if not p[1]}
         if os.environ.get("SWIMVERIFY_ALPHA", "0") == "1":
             # self-test: forget the names of let-bound locals (alpha-renaming must not change any verdict); parameters keep theirs
             self.vars = [(n, p) for n, p in raw["vars"] if (not p[1] and 1 <= p[0] <= raw["argc"]) or p[1]]
+        elif os.environ.get("SWIMVERIFY_ALPHA", "0") == "2":
+            # self-test: forget every name the debug information gives (locals, parameters, captured variables); only the frozen parameter roles remain
+            keep = self._frozen
+            self.vars = [(n, p) for n, p in self.vars if n == "self" or (p[0], json.dumps(p[1])) in keep]
         self._calls = None
         self._defs = None
         self._mutb = None
@@ -332,6 +355,60 @@ class Body:
         self._pdom = None
         self._cdep = None
         self._reach_cache = {}
+
+    def _canonical_params(self, raw):
+        """Parameter names come from the frozen table (engine/param_table.json) when the parameter at that position still has the recorded type: a rule
+        that speaks of `senders` means `parameter 1 of send_current`, whatever the source calls it today. For the body of an `async fn` (closure#0 of the
+        function) captured variable i is parameter i+1 of the function. Where arity or type changed the debug name is kept."""
+        self._frozen = set()
+        tab = _param_table().get(self.crate.name, {})
+        dp = self.defpath
+        out = list(raw["vars"])
+        ent = tab.get(dp)
+        if ent is not None and len(ent) == raw["argc"]:
+            for i, (nm, ty) in enumerate(ent, start=1):
+                if nm is None or raw["locals"][i] != ty:
+                    continue
+                out = [(n, p) for n, p in out if not (p[0] == i and not p[1])] + [(nm, [i, []])]
+                self._frozen.add((i, "[]"))
+        if dp.endswith("::{closure#0}") and dp[:-len("::{closure#0}")] in tab and raw["argc"] == 2 and "async fn body" in raw["locals"][1]:
+            parent = dp[:-len("::{closure#0}")]
+            pent = tab[parent]
+            try:
+                pb = self.crate.body(parent)
+                ptys = [pb.raw["locals"][i] for i in range(1, pb.raw["argc"] + 1)]
+            except Exception:
+                ptys = None
+            if ptys is not None and len(ptys) == len(pent):
+                new = []
+                for n, p in out:
+                    if p[0] == 1 and len(p[1]) == 1 and p[1][0][0] == "f" and p[1][0][1] < len(pent):
+                        k = p[1][0][1]
+                        if pent[k][0] is not None and pent[k][1] == ptys[k]:
+                            new.append((pent[k][0], p))
+                            self._frozen.add((1, json.dumps(p[1])))
+                            continue
+                    new.append((n, p))
+                out = new
+        return out
+
+    def upvar_origin(self, k):
+        """(enclosing body, operand) captured as variable k of this closure / coroutine, when the enclosing body builds it in one place."""
+        m = re.match(r"^(.*)::\{closure#\d+\}$", self.defpath)
+        if not m or m.group(1) not in self.crate.by_def:
+            return None
+        if not hasattr(self, "_uorigin"):
+            self._uorigin = None
+            try:
+                pb = self.crate.body(m.group(1))
+                sites = [rv for i, j, p, rv, line in pb.assigns() if rv[0] == "agg" and (rv[1].get("closure") == self.defpath or rv[1].get("coroutine") == self.defpath)]
+                if len(sites) == 1:
+                    self._uorigin = (pb, sites[0][2])
+            except Exception:
+                self._uorigin = None
+        if self._uorigin is None or k >= len(self._uorigin[1]):
+            return None
+        return (self._uorigin[0], self._uorigin[1][k])
 
     def __repr__(self):
         return "Body(%s)" % self.defpath
@@ -350,6 +427,17 @@ class Body:
                 return n
         return self.derived_names().get(local)
 
+    def assign_roles(self, roles):
+        """Give locals canonical names chosen by a rule from structure (type, data flow, argument position): `roles` maps local -> name. The user's own
+        name for such a local is dropped, so that a rule written against the canonical names never depends on what the source calls the variable."""
+        roles = {l: n for l, n in roles.items() if l is not None}
+        self.vars = [(n, p) for n, p in self.vars if not (p[0] in roles and not p[1])] + [(n, [l, []]) for l, n in roles.items()]
+        self._derived = None
+        for k in ("_dcache", "_desc_cache"):
+            if hasattr(self, k):
+                setattr(self, k, {})
+        return self
+
     def derived_names(self):
         """Names for let-bound locals that do not depend on what the author called them: a local is named after the parameter of the crate-local
         function it is passed to (by value, reference or reborrow). When it is passed under several parameter names the most frequent wins, ties go to
@@ -357,7 +445,7 @@ class Body:
         if getattr(self, "_derived", None) is not None:
             return self._derived
         self._derived = {}
-        if os.environ.get("SWIMVERIFY_ALPHA", "0") != "1":
+        if os.environ.get("SWIMVERIFY_ALPHA", "0") not in ("1", "2"):
             return self._derived
         votes = defaultdict(lambda: defaultdict(int))
         named = {p[0] for n, p in self.vars if not p[1]}
@@ -1594,6 +1682,16 @@ def describe_place(body, place, depth=0):
                         break
                 if base is not None:
                     break
+        if base is None and local == 1 and projs and isinstance(projs[0], list) and projs[0][0] == "f" and depth < 20:
+            # a captured variable without a name of its own: it is what the enclosing function put into the closure
+            o = body.upvar_origin(projs[0][1])
+            if o is not None:
+                base = describe_operand(o[0], o[1], depth + 1).lstrip("&")
+                if base.startswith("mut "):
+                    base = base[4:]
+                projs = projs[1:]
+                if projs and projs[0] == "*":
+                    projs = projs[1:]
         if base is None:
             base = "arg%d" % local if 1 <= local <= body.argc else "_%d" % local
     s = base
